@@ -1603,7 +1603,9 @@ class Parameter(_ParameterBase):
                 # (the task of an asynchronous reference was just scheduled
                 # and has already superseded the previous one)
                 update_ref = partial(obj.param._update_ref, name, ref, not is_async)
-            elif name in refs and not syncing:
+            elif name in refs and not syncing and not (
+                    obj.param._TRIGGER and val is obj._param__private.values.get(name, self.default)):
+                # (unless param.trigger is merely re-announcing the value)
                 update_ref = partial(obj.param._update_ref, name, Undefined)
             if is_async or val is Undefined:
                 if update_ref is not None:
